@@ -33,6 +33,7 @@ type Fault struct {
 	Chunks  []int  `json:"chunks,omitempty"`  // deliver the response in pieces
 	Stall   int    `json:"stall,omitempty"`   // > 0: deliver this many bytes, pause StallMs, deliver the rest
 	StallMs int    `json:"stallMs,omitempty"`
+	Corr    int    `json:"corr,omitempty"`   // answer with correlation id = the request's + Corr (a framing error for the client)
 	Report  bool   `json:"report,omitempty"` // the operation is expected to report the injected code
 }
 
@@ -166,6 +167,11 @@ func (r *run) hook(ev string, a []interface{}) {
 	case "batch.close":
 		err, _ := a[1].(error)
 		cls, code := errClass(err)
+		if errors.Is(err, io.ErrShortBuffer) {
+			// the application's buffer was too small: the batch reports it, the rest of the response is drained and the
+			// Conn stays open -- for the connection this is a completely read response
+			cls = "response"
+		}
 		r.rec.Emit(trace.Event{"ev": "done", "o": r.opOfG(), "id": 0, "result": cls, "code": code, "batch": true})
 	}
 }
@@ -256,7 +262,7 @@ func opSignature(op *Op) string {
 		return "meta:"
 	case "produce":
 		return "produce"
-	case "fetch":
+	case "fetch", "fetchShort", "fetchPartial", "fetchClose2":
 		return "fetch"
 	case "createTopics":
 		return "create"
@@ -314,6 +320,10 @@ func (r *run) faultReply(req *fakekafka.Request, op *Op) *fakekafka.Reply {
 	}
 	if f.Stall > 0 {
 		rep.StallAt, rep.StallFor = f.Stall, time.Duration(f.StallMs)*time.Millisecond
+	}
+	if f.Corr != 0 {
+		id := req.CorrID + int32(f.Corr)
+		rep.CorrID = &id
 	}
 	return &rep
 }
@@ -484,6 +494,40 @@ func (r *run) exec(conn *kafka.Conn, cl *fakekafka.Cluster, op *Op) (res result)
 		res.nrec = n
 		res.own = own && (rerr != nil || next == hw)
 		res.info = fmt.Sprintf("from=%d n=%d", from, n)
+	case "fetchShort", "fetchPartial", "fetchClose2":
+		// a batch that the application does not read to its end: Read with a buffer that is too small for the first
+		// message (io.ErrShortBuffer, the Conn stays usable), or one message of several and Close (once / twice)
+		from := int64(op.Arg)
+		if _, err := conn.Seek(from, kafka.SeekAbsolute|kafka.SeekDontCheck); err != nil {
+			res.cls, res.code = errClass(err)
+			return
+		}
+		b := conn.ReadBatch(1, 1<<20)
+		var rerr error
+		if op.Kind == "fetchShort" {
+			_, err := b.Read(make([]byte, 3))
+			if !errors.Is(err, io.ErrShortBuffer) {
+				rerr = fmt.Errorf("Read with a 3-byte buffer: %v", err)
+				if err != nil {
+					rerr = err
+				}
+			}
+			res.own = errors.Is(err, io.ErrShortBuffer)
+		} else {
+			m, err := b.ReadMessage()
+			rerr = err
+			res.own = err == nil && m.Offset == from && string(m.Value) == string(valueOf(m.Offset))
+			res.nrec = 1
+		}
+		cerr := b.Close()
+		if op.Kind == "fetchClose2" {
+			b.Close()
+		}
+		if rerr == nil && cerr != nil && !errors.Is(cerr, io.ErrShortBuffer) {
+			rerr = cerr
+		}
+		res.cls, res.code = errClass(rerr)
+		res.info = fmt.Sprintf("%s from=%d", op.Kind, from)
 	default:
 		res = result{cls: "ioError", info: "unknown op"}
 	}
@@ -569,7 +613,10 @@ func setup(sc *Script) (*run, *fakenet.Conn, error) {
 		}
 		flen := 8 + len(rep.Body)
 		ev := trace.Event{"ev": "reply", "o": o, "id": int(req.CorrID), "api": int(req.ApiKey), "v": int(req.Version),
-			"kerr": kerr, "cut": cut, "len": flen, "unread": unread, "sig": sig}
+			"kerr": kerr, "cut": cut, "len": flen, "unread": unread, "sig": sig, "rid": int(req.CorrID)}
+		if rep.CorrID != nil {
+			ev["rid"] = int(*rep.CorrID)
+		}
 		rep.OnSend = func() { r.rec.Emit(ev) }
 		if rep.StallAt > 0 {
 			// the first piece is what a cut at that byte would deliver; the rest follows after the pause
@@ -603,9 +650,10 @@ func Run(sc *Script) []trace.Event {
 	ops := make([]interface{}, len(sc.Ops))
 	for i := range sc.Ops {
 		op := &sc.Ops[i]
-		f := map[string]interface{}{"err": 0, "cut": -1, "report": false, "stall": 0}
+		f := map[string]interface{}{"err": 0, "cut": -1, "report": false, "stall": 0, "corr": 0}
 		if op.Fault != nil {
 			f["stall"] = op.Fault.Stall
+			f["corr"] = op.Fault.Corr
 			f["err"] = op.Fault.Err
 			f["report"] = op.Fault.Report
 			if op.Fault.Cut != nil {
